@@ -192,7 +192,8 @@ Proof.
       destruct K3 as [K3 | [K3 [K4 K5]]]; [left; auto | right]. repeat split; auto. left. discriminate.
     + intros _. split.
       * (* sealed *)
-        match goal with Hx : negb (cn _ FPcOk =? 0) || _ || _ = true |- _ => rename Hx into CR end.
+        match goal with Hx : negb (cn _ FPcOk =? 0) || _ || _ || _ = true |- _ => rename Hx into CR end.
+        apply orb_true_iff in CR. destruct CR as [CR | CD]; [| exfalso; b2p; unfold hasm, F in Hm; congruence].
         apply orb_true_iff in CR. destruct CR as [CR | CR]; [apply orb_true_iff in CR; destruct CR as [CR | CR] |]; b2p.
         all: try (exfalso; apply CR; apply (a_1pcts _ _ A)).
         all: try (pose proof (l_pcok _ _ L Hm CR) as E; destruct (a_commit _ _ A _ _ E) as [S _];
